@@ -94,13 +94,13 @@ impl TimeFilter for ts::TimeSpan {
             if start < end {
                 end
             } else {
-                end.add_hours(24)
-                    .expect("overflow during TimeSpan resolution")
+                // Both bounds could exceed 24:00 because of an offset applied to an event: the
+                // span can't extend after the end of the following day.
+                end.add_hours(24).unwrap_or(ExtendedTime::MIDNIGHT_48)
             }
         };
 
-        assert!(start <= end);
-        start..end
+        start..std::cmp::max(start, end)
     }
 }
 
